@@ -495,6 +495,22 @@ def err_class(e: BaseException) -> str:
     return "other"
 
 
+def _eqkey(c):
+    """Key under which Python's == / hash would identify set elements (True == 1 == 1.0 == Decimal(1))."""
+    try:
+        if isinstance(c, bool):
+            return json.dumps(int(c))
+        if isinstance(c, list) and c and c[0] == "f" and float(c[1]).is_integer():
+            return json.dumps(int(float(c[1])))
+        if isinstance(c, list) and c and c[0] == "dec" and decimal.Decimal(c[1]) == decimal.Decimal(c[1]).to_integral_value():
+            return json.dumps(int(decimal.Decimal(c[1])))
+        if isinstance(c, list) and c and c[0] == "frac" and c[2] == 1:
+            return json.dumps(c[1])
+    except Exception:  # noqa: BLE001
+        pass
+    return json.dumps(c)
+
+
 def canon(vj):
     """Canonical form for comparison: sets sorted, dict duplicates resolved last-wins."""
     if vj is None or isinstance(vj, (bool, int, str)):
@@ -506,11 +522,11 @@ def canon(vj):
         seen, out = set(), []
         for x in vj[1]:
             c = canon(x)
-            k = json.dumps(c)
+            k = _eqkey(c)
             if k not in seen:
                 seen.add(k)
                 out.append(c)
-        return [tag, sorted(out, key=json.dumps)]
+        return [tag, sorted(out, key=_eqkey)]
     if tag == "d":
         order, m = [], {}
         for k, v in vj[1]:
